@@ -24,7 +24,7 @@ Bad(e) ==
        (* every successful micro-solve is followed by exactly one update and one history entry; a failed   *)
        (* (skipped) step leaves the history alone: |hist| = number of successful micro-solves               *)
   \cup { c \in {"HistoryMatchesUpdates"} : e.updates >= 0 /\ e.hist_len # e.updates }
-  \cup { c \in {"M:FallbackOnlyAfterCgFailure"} : e.micro.ns_fallback # e.micro.spd_fail }
+  \cup { c \in {"M:FallbackOnlyAfterCgFailure"} : e.solver # "cgne" /\ e.micro.ns_fallback # e.micro.spd_fail }
   \cup { c \in {"M:InjectedFaultsTaken"} : (e.inject # <<>> /\ "spd_fail_every" \in DOMAIN e.inject /\ e.micro.spd_ok + e.micro.spd_fail >= 2 /\ e.micro.spd_fail = 0) }
 TInit == l = 1 /\ nbad = 0
 TNext ==
